@@ -167,7 +167,7 @@ def entry_configs(cls: str) -> list:
     for pi in (1, 3):
         for w in DR.R_WRITERS:
             if cls == "graph" and w in ("flat_to_frames", "flat_to_file", "graph_serialize_options",
-                                        "grouped_to_file"):
+                                        "grouped_to_file", "flat_to_frames_iter"):
                 continue  # these choose the stream class themselves (never GraphStream)
             out.append((pi, 2, "flat", True, w))
     if cls != "graph":
